@@ -266,3 +266,6 @@ Definition bern_sample (dist : N * N) (prng : list N) : res (bool * list N) :=
   | v :: r => Ok (v <? bern_threshold dist, r)
   | [] => Panic site_fuel
   end.
+
+(* Iterator::sum over unsigned numbers *)
+Definition sum_N (l : list N) : N := fold_right N.add 0 l.
